@@ -319,9 +319,10 @@ func (x *Exec) NewClient(name string) *Client {
 		x.mu.Unlock()
 		close(ready)
 		for f := range c.cmd {
-			f()
+			x.Safe(name, f)
 			x.mu.Lock()
 			c.busy = false
+			a.depth = 0
 			x.mu.Unlock()
 		}
 	}()
@@ -569,4 +570,19 @@ func (x *Exec) Loop(moves func() []Move, observe func(), max int) {
 	if observe != nil {
 		observe()
 	}
+}
+
+// Safe runs f and turns a panic coming out of the library into a "panic" event (an observation
+// for the monitors) instead of a harness crash.
+func (x *Exec) Safe(actor string, f func()) {
+	defer func() {
+		if r := recover(); r != nil {
+			msg := fmt.Sprint(r)
+			if len(msg) > 200 {
+				msg = msg[:200]
+			}
+			x.Log(trace.E{"ev": "panic", "actor": actor, "msg": msg})
+		}
+	}()
+	f()
 }
